@@ -148,7 +148,7 @@ pub fn plan_pipeline_case(check: &str, tier: Tier, seed: u64, idx: u64) -> Plan 
     let gen_seed = derive(seed, 0x6e6e_0000 ^ idx);
     let (profile, mode): (Profile, SchedMode) = match check {
         "C01" => ([Profile::Mixed, Profile::Mixed, Profile::Conflict, Profile::Lifecycle, Profile::Code, Profile::Beneficiary][rng.below(6) as usize], SchedMode::Any),
-        "C02" => ([Profile::Conflict, Profile::Conflict, Profile::Mixed, Profile::Beneficiary][rng.below(4) as usize], SchedMode::Any),
+        "C02" => ([Profile::Conflict, Profile::Conflict, Profile::Conflict, Profile::Mixed, Profile::Mixed, Profile::Beneficiary, Profile::Beneficiary, Profile::Code, Profile::Invalid][rng.below(9) as usize], SchedMode::Any),
         "C03" => ([Profile::Invalid, Profile::Invalid, Profile::Invalid, Profile::Code][rng.below(4) as usize], SchedMode::Any),
         "C04" => ([Profile::Mixed, Profile::Conflict, Profile::Invalid, Profile::Precompile][rng.below(4) as usize], SchedMode::Any),
         "C05" => (
@@ -316,7 +316,9 @@ pub fn filter_findings(check: &str, findings: Vec<Finding>) -> (Vec<Finding>, Ve
         }
         let keep: Option<&'static str> = match check {
             "C01" => (f.property == "C01" || (f.property == "C03" && f.class == "outcomes")).then_some("C01"),
-            "C02" => (f.property == "C02").then_some("C02"),
+            // committing a transaction in-order validation rejects (or skipping one it accepts) is a wrong
+            // commit as well
+            "C02" => (f.property == "C02" || (f.property == "C03" && f.class.starts_with("commit."))).then_some("C02"),
             "C03" => matches!(f.property, "C03" | "C01" | "C02").then_some("C03"),
             "C04" => (f.property == "C04" || f.property == "C02").then_some("C04"),
             "C05" => (f.property == "C05").then_some("C05"),
